@@ -24,6 +24,11 @@ var scnContracts = []scnContract{
 	{Name: "Far", Src: `
 access(all) contract Far {
     access(all) event Note(msg: String, n: Int)
+    access(all) event Opt(a: Int?, b: Int??, c: [Int?]?, d: {String: Int?}??, f: String???)
+    access(all) fun emitOpt(_ x: Int?, _ s: String?) {
+        let d: {String: Int?}? = x == nil ? nil : {"k": x}
+        emit Opt(a: x, b: x, c: [x, nil], d: d, f: s)
+    }
     access(all) resource T {
         access(all) event ResourceDestroyed(uuid: UInt64 = self.uuid, id: Int = self.id)
         access(all) let id: Int
@@ -849,6 +854,14 @@ var scenarios = []scenario{
 			steps = append(steps, scnStep{Kind: "script", Src: scnScript("import World from 0x1\n", "Int", fmt.Sprintf("    return World.rec(%d, false)", lim-j)), SameEngineOnly: true})
 		}
 		return steps
+	}},
+	{"nested-optional-events", func(r *Rng) []scnStep {
+		x := r.Intn(100)
+		return []scnStep{{Kind: "tx", Src: scnTx(impW+"import Far from 0x9\n", fmt.Sprintf(`        Far.emitOpt(%d, "s")
+        Far.emitOpt(nil, nil)
+        let o: Int? = %d
+        Far.emitOpt(o, nil)
+        log("emitted")`, x, x+1)), Expect: []string{`"emitted"`}}}
 	}},
 	{"resource-juggling", func(r *Rng) []scnStep {
 		a, b := r.Intn(100), 100+r.Intn(100)
